@@ -154,6 +154,12 @@ def run(run):
             run.violation(f"conversion raised {core.exc_text(e)} on general path {path} (N={n})", d0, tags=["raised"])
     # edge paths: every permutation of the indices of small networks
     pool = [n_ for n_ in nets.net_pool(rng, 14 if quick else 60, nmin=2, nmax=5) if 1 <= n_.K <= 5]
+    # structured members: a hyper index whose carriers also share ordinary bonds; an output (batch) index on several
+    # tensors; a hyper output index - the cases in which visiting an index merges more or fewer tensors than a bond would
+    pool += [nets.Net([[1, 2], [1, 2, 4], [2, 3], [3, 4]], [], [2, 2, 2, 2], kind="hyper+bonds"),
+             nets.Net([[1, 2], [1, 3], [2, 4], [3, 4]], [1], [2, 2, 2, 2], kind="batch-output"),
+             nets.Net([[1, 2], [1, 3], [1, 2, 3]], [1], [2, 2, 2], kind="hyper-output"),
+             nets.Net([[1, 2, 5], [1, 3], [2, 3, 4], [4, 5]], [5], [2, 2, 2, 2, 2], kind="output-on-two")]
     nperm = 0
     for net in pool:
         perms = list(itertools.permutations(range(1, net.K + 1)))
@@ -174,8 +180,20 @@ def run(run):
                         run.violation("edge_path_to_linear disagrees with ssa_to_linear(edge_path_to_ssa)", d0, tags=["edge-linear"])
                     tr = ct.ContractionTree.from_path(net.c_inputs(), net.c_output(), net.c_sizes(), edge_path=ep,
                                                       autocomplete=True)
-                    full = list(ssa)
-                    add({"kind": "tree", "N": net.N, "ch": ch0(tr)}, dict(d0, api="from_path(edge_path=)"))
+                    # the tree built from the edge path must contain every node the (spec-checked) ssa form denotes
+                    live = net.N
+                    for st_ in ssa:
+                        live -= len(st_) - 1
+                    if live == 1:
+                        add({"kind": "from_ssa_multi", "N": net.N, "path": [list(s_) for s_ in ssa], "ch": ch0(tr)},
+                            dict(d0, api="from_path(edge_path=) vs edge_path_to_ssa"))
+                    else:
+                        add({"kind": "tree", "N": net.N, "ch": ch0(tr)}, dict(d0, api="from_path(edge_path=)"))
+                    tr2 = ct.array_contract_tree(net.c_inputs(), net.c_output(), net.c_sizes(), optimize=tuple(ep), canonicalize=False)
+                    if live == 1 and {frozenset(x) for x in tr2.children} != {frozenset(x) for x in tr.children} and \
+                            all(len(st_) == 2 for st_ in ssa):
+                        run.violation("array_contract_tree(optimize=<edge path>) and from_path(edge_path=) build different trees", d0,
+                                      tags=["edge-tree-routes"])
             except Exception as e:
                 run.violation(f"edge path API raised {core.exc_text(e)} eq={net.eq()} edge_path={perm}", d0, tags=["raised"])
     run.extra["edge_permutations"] = nperm
